@@ -374,6 +374,62 @@ def r06_10(ctx, rep):
     run_as(r05_3, "R06.10", ctx, rep)
 
 
+@SPEC.rule(
+    "R06.11",
+    "the parent refresh after a merge reaches every class (R27.3 evaluated for this property): a class that keeps the parent link it had in "
+    "another tree is shared, through that link, by every deep copy — copies then resolve sibling classes in the original",
+)
+def r06_11(ctx, rep):
+    from ..engine import run_as
+    from .c27 import r27_3
+    run_as(r27_3, "R06.11", ctx, rep)
+
+
+MUTATORS = ("pop", "popitem", "append", "extend", "insert", "remove", "discard", "add", "update", "clear", "setdefault", "move_to_end", "sort", "reverse")
+
+
+@SPEC.rule(
+    "R06.12",
+    "an edit changes the tree it is made on and nothing else: the editing methods of ast.Class (add_*/remove_*) write into containers of "
+    "`self` only; of their argument they set the `parent` link and nothing more, and they reach no other node through it (a detached deep "
+    "copy still carries the parent link of the class it was copied from: an edit that `moves` it first deletes from the original tree)",
+)
+def r06_12(ctx, rep):
+    R = "R06.12"
+    ms = ctx.methods(AST, "Class", R)
+    n = 0
+
+    def root(e):
+        while isinstance(e, (ast.Attribute, ast.Subscript, ast.Call)):
+            e = e.func if isinstance(e, ast.Call) else e.value
+        return e.id if isinstance(e, ast.Name) else None
+
+    for name, fn in sorted(ms.items()):
+        if not name.startswith(("add_", "remove_")):
+            continue
+        n += 1
+        site = AST + ":Class." + name
+        params = {a.arg for a in fn.args.args[1:]}
+        slf = fn.args.args[0].arg
+        foreign = []
+        for x in ast.walk(fn):
+            tgt = None
+            if isinstance(x, (ast.Assign, ast.AugAssign, ast.Delete)):
+                for t in (x.targets if not isinstance(x, ast.AugAssign) else [x.target]):
+                    if isinstance(t, ast.Subscript) and root(t) != slf:
+                        tgt = t
+                    if isinstance(t, ast.Attribute) and root(t) != slf and not (isinstance(t.value, ast.Name) and t.value.id in params and t.attr == "parent"):
+                        tgt = t
+            if isinstance(x, ast.Call) and isinstance(x.func, ast.Attribute) and x.func.attr in MUTATORS and root(x.func.value) in params:
+                tgt = x
+            if tgt is not None:
+                foreign.append("line %d: %s" % (x.lineno, norm(tgt)[:60]))
+        rep.ob(R, site, "writes only into self (and the argument's parent link)", not foreign,
+               "%s — the method edits a node other than the one it was called on" % "; ".join(foreign[:3]))
+    if n < 6:
+        raise MechanismMissing(R, "fewer than 6 add_*/remove_* methods found on ast.Class")
+
+
 # -- seeded variants ---------------------------------------------------------
 from ._mut import delete_stmt_where, find_def, replace_in_func  # noqa: E402
 
